@@ -75,19 +75,24 @@ def harnesses(tier, seed):
                 hs.append(collect("collect_x", ty, 2, 2, 1, [1, 0], cvs[-1]))
             hs.append(collect("collect_vec", ty, 2, 2, 1, None, cvs[-1], src="counting"))
     else:
+        light, heavy = [], []
         for ty in ("M", "F", "MF", "FM", "FMF", "FL", "FLF"):
             for term in ("count", "reduce_xor", "find", "any"):
                 if term == "reduce_xor" and ty == "F":
                     continue
                 for (n, t, c) in ((4, 2, 1), (4, 2, 2), (4, 3, 1)):
-                    hs.append(scalar(term, ty, n, t, c))
-            for (n, t, c) in ((3, 2, 1), (3, 2, 2)):
+                    heavy.append(scalar(term, ty, n, t, c))
+                heavy.append(scalar(term, ty, 4, 2, 1, src="sched"))
+            bucket = heavy if ty in ("FL", "FLF") else light
+            for (n, t, c) in ((3, 2, 1), (3, 2, 2), (2, 2, 2)):
                 for owners in owner_tables(n, t, c):
                     for k in count_vectors(ty, n):
-                        hs.append(collect("collect_vec", ty, n, t, c, owners, k))
+                        bucket.append(collect("collect_vec", ty, n, t, c, owners, k))
             for k in count_vectors(ty, 2):
                 for owners in owner_tables(2, 2, 1):
-                    hs.append(collect("collect_x", ty, 2, 2, 1, owners, k))
-                hs.append(collect("collect_vec", ty, 2, 2, 1, None, k, src="counting"))
-                hs.append(collect("collect_vec", ty, 2, 1, 1, None, k, src="counting"))
+                    bucket.append(collect("collect_x", ty, 2, 2, 1, owners, k))
+                    bucket.append(collect("collect_vec", ty, 2, 2, 1, owners, k, src="sched"))
+                bucket.append(collect("collect_vec", ty, 2, 2, 1, None, k, src="counting"))
+                bucket.append(collect("collect_vec", ty, 2, 1, 1, None, k, src="counting"))
+        hs += cap(light, 400, seed) + cap(heavy, 110, seed)
     return hs
